@@ -22,6 +22,9 @@ func (g *cfgGen) assemble() {
 		subs[s].Types = append(subs[s].Types, q)
 	}
 	keyTop := func(t *gType, s int) map[string]bool {
+		if hasInt(t.hop, s) {
+			return keyFieldNames([]string{t.keys[1]})
+		}
 		ks := []string{t.keys[0]}
 		if hasInt(t.key2, s) && len(t.keys) > 1 {
 			ks = append(ks, t.keys[1])
@@ -32,7 +35,9 @@ func (g *cfgGen) assemble() {
 		st := &SubType{Name: t.def.Name}
 		if t.cat == catEntity {
 			st.Keys = []string{t.keys[0]}
-			if !stub && hasInt(t.key2, s) && len(t.keys) > 1 {
+			if !stub && hasInt(t.hop, s) {
+				st.Keys = []string{t.keys[1]}
+			} else if !stub && hasInt(t.key2, s) && len(t.keys) > 1 {
 				st.Keys = append(st.Keys, t.keys[1])
 			}
 		}
